@@ -97,7 +97,27 @@ func (w *verifC14World) step(r *rand.Rand) string {
 		}
 		return w.vals[r.Intn(len(w.vals))]
 	}
-	switch op := r.Intn(10); {
+	switch op := r.Intn(12); {
+	case op == 10:
+		// edit a field of a global after construction (its pointer type is computed at construction)
+		if len(w.m.Globals) == 0 {
+			return "skip"
+		}
+		w.m.Globals[r.Intn(len(w.m.Globals))].AddrSpace = types.AddrSpace(r.Intn(3))
+		return "set addrspace"
+	case op == 11:
+		// use a global as an operand (its type is printed with the use)
+		if len(w.m.Globals) == 0 || len(w.blocks) == 0 {
+			return "skip"
+		}
+		b := w.blocks[len(w.blocks)-1]
+		if b.Term != nil {
+			return "skip"
+		}
+		x := b.NewLoad(types.I32, w.m.Globals[r.Intn(len(w.m.Globals))])
+		x.SetName(name())
+		w.vals = append(w.vals, x)
+		return "load global"
 	case op == 0 || len(w.funcs) == 0:
 		n := name()
 		if n == "" && len(w.funcs) > 0 {
